@@ -51,7 +51,7 @@ C = {
          "Bodies bounded; periodic shapes included.", "TLC model checking against a declarative oracle + replay into the real lexer", "6 C18"),
  "C19": (MC, "XssGen.tla: operational decoder = declarative RefValue and consumption contract model-checked on all short references and overflow ladders, compared with the real decoder; every encoding of each scheme byte x junk x interleaving enumerated and replayed on the real isBlackURL and IsXSS",
          "Long schemes: exhaustive on the first four bytes and on any two encoded positions.", "TLC model checking of XssGen.tla + replay into the real code", "6 C19"),
- "C20": (MC, "Finite space enumerated completely: one TLC state per entry of the five tables regenerated from the running code and per entry of the pinned baseline; well-formedness and baseline-kept invariants",
+ "C20": (MC, "Finite space enumerated completely: one TLC state per entry of the five tables regenerated from the running code and per entry of the pinned baseline; well-formedness and baseline-kept invariants; the tables are read at process start and again after every entry was looked up through IsSQLi/IsXSS (used tables judged too when they differ)",
          "Trusts VerifTables() and baseline/Baseline.tla.", "TLA+ spec (TablesProp.tla) over generated Tables module, TLC exhaustive; canary", "6 C20"),
 }
 checks = []
